@@ -608,6 +608,13 @@ var argEchoes = map[string][]argEcho{
 
 var lookupNames = map[string]string{"Storage": "Storage ", "Product": "Product "}
 
+// root fields whose items carry their concrete type in the id the mock gives them (anchors the
+// choice of the oneof member)
+var idPrefixType = map[string]map[string]string{
+	"Query.allPets": {"cat-": "Cat", "dog-": "Dog"},
+	"Query.search":  {"product-search-": "Product", "user-search-": "User", "category-search-": "Category"},
+}
+
 func argLiteral(f *ast.Field, path []string) (string, bool) {
 	a := f.Arguments.ForName(path[0])
 	if a == nil {
@@ -632,6 +639,25 @@ func (k *walk) serviceFacts(obj map[string]any, t *ast.Definition, cs []collecte
 	}
 	via := k.via[len(k.via)-1]
 	if k.w.rig == "plain" {
+		if prefixes := idPrefixType[via.parent+"."+via.field.Name]; prefixes != nil {
+			id, tn := "", ""
+			for _, c := range cs {
+				switch c.fields[0].Name {
+				case "id":
+					id, _ = obj[c.key].(string)
+				case "__typename":
+					tn, _ = obj[c.key].(string)
+				}
+			}
+			for prefix, want := range prefixes {
+				if id != "" && strings.HasPrefix(id, prefix) {
+					k.labels["service-fact:id-names-the-type"] = true
+					if t.Name != want || (tn != "" && tn != want) {
+						k.bad("%s: the service gives ids starting with %q to %s values, the response presents id %q as %s (__typename %q)", path, prefix, want, id, t.Name, tn)
+					}
+				}
+			}
+		}
 		for _, e := range argEchoes[via.parent+"."+via.field.Name] {
 			want, ok := argLiteral(via.field, e.arg)
 			if !ok {
